@@ -179,6 +179,8 @@ func checkNormLaws(p pk, n packageurl.PackageURL) {
 		bad = "version changed"
 	case canonName(n.Name) != canonName(p.pname):
 		bad = "name changed beyond case and _ . - folding"
+	case n.Type != strings.ToLower(p.typ):
+		// malformed stream (empty type, "npm/"): the components shift on re-parse; only the three laws above apply
 	case strings.ToLower(cleanSegs(n.Namespace)) != strings.ToLower(cleanSegs(p.ns)):
 		bad = "namespace changed beyond case and empty segments"
 	case cleanSegs(n.Subpath) != cleanSegs(p.subpath):
@@ -694,6 +696,55 @@ func fixedInventories() [][]pk {
 	return out
 }
 
+// matrixInventories: every byte class that purl print / parse treats specially, in EVERY component separately, for every
+// purl type (the table of harness/cmd/c14gen/protopurl.go's `purlrt` stream: types x 5 components x 15 byte classes),
+// type-legal (conan: channel qualifier with a namespace, swift: namespace and version, cran: version). One inventory per
+// (type, component) holds the 15 byte classes; it is exported and scanned back in all five formats.
+var nastyBits = []string{" ", "%", "?", "#", "@", "/", ":", "+", "&", "=", "ü", "\x01", "%41", "%2f", " ?#@ü"}
+var purlFields = []string{"name", "ns", "version", "qual", "subpath"}
+
+func matrixInventories() [][]pk {
+	var out [][]pk
+	for _, t := range allTypes {
+		for _, f := range purlFields {
+			var inv []pk
+			for i, b := range nastyBits {
+				p := pk{hasPurl: true, typ: t, ns: "ns", pname: fmt.Sprintf("m%d", i), pversion: "1.0", locs: []string{"f"},
+					quals: []qual{{"arch", "amd64"}}}
+				switch t {
+				case purl.TypeConan:
+					p.ns = ""
+				case purl.TypeSwift:
+					p.ns = "github.com/apple"
+				}
+				switch f {
+				case "name":
+					p.pname = "na" + b + "me"
+				case "ns":
+					p.ns = "n" + b + "s"
+					switch t {
+					case purl.TypeConan:
+						p.quals = append(p.quals, qual{"channel", "stable"})
+					case purl.TypeSwift:
+						p.ns = "github.com/ap" + b + "ple"
+					}
+				case "version":
+					p.pversion = "1" + b + "0"
+				case "qual":
+					// the shape of an os-release derived qualifier: distro=Plucky Puffin
+					p.quals = []qual{{"arch", "am" + b + "64"}, {"distro", "Plucky" + b + "Puffin"}}
+				case "subpath":
+					p.subpath = "su" + b + "b/dir"
+				}
+				p.name, p.version = p.pname, p.pversion
+				inv = append(inv, p)
+			}
+			out = append(out, inv)
+		}
+	}
+	return out
+}
+
 func workers() int {
 	n := runtime.NumCPU() / 2
 	if n > 6 {
@@ -760,6 +811,11 @@ func main() {
 	for _, inv := range fixedInventories() {
 		for _, f := range formats {
 			emit(tcase{stream: "fixed", format: f, pkgs: inv})
+		}
+	}
+	for _, inv := range matrixInventories() {
+		for _, f := range formats {
+			emit(tcase{stream: "matrix", format: f, pkgs: inv})
 		}
 	}
 	r := hx.Rng(o)
